@@ -27,6 +27,9 @@ UNITS = {
 PROPS = {
     "C27": {
         "level": "proof",
+        "level_text": "Proof for all inputs: the real varint_len/encode_varint/decode_varint are checked bit-precisely by Kani/CBMC over every u64 and every byte string (a 10-byte symbolic buffer with symbolic length is complete because the decoder never reads past byte 8, which is itself an obligation). Oracle for the length is the documented 6-range table.",
+        "level_note": "Trusted: Kani/CBMC, rustc MIR semantics; eyre error construction stubbed (error payload not verified, Ok/Err is). No bounded stand-ins.",
+        "technique": "Kani full-domain loop-free Hoare triples on the real functions (contract = harness-level requires/ensures)",
         "kani_units": ["varint"],
         "n_obligations": {"quick": 4, "thorough": 4},
         "explanation": "Full-domain Hoare triples on the real varint_len/encode_varint/decode_varint: all 2^64 values, all byte strings (10 symbolic bytes + symbolic length is complete because the decoder never indexes past byte 8).",
